@@ -69,7 +69,11 @@ def build(pid, o, P, repo, work, verus_results, kani_out):
                 rp['how'] = 'Kani counterexample re-executed natively against the scratch copy of the real crate (cargo kani playback): the harness assertion fails'
             elif ce.get('concrete_values'):
                 rp['how'] = 'Kani produced concrete values (below); the harness replaces ring primitives by stubs, so it cannot be re-executed natively'
-        drv = P.get('native_search', {}).get(o['id'])
+        drv = None
+        for k_, v_ in P.get('native_search', {}).items():
+            if k_ == o['id'] or re.fullmatch(k_, o['id']):
+                drv = v_
+                break
         if drv and not rp['failing_input_found']:
             import native
             r = native.run_driver(drv, repo, work, o)
